@@ -20,6 +20,8 @@ def cases(rng, tier):
     # frames three deep: an argument that is itself an invocation forwarding the caller's parameter; bodies reading a
     # variable that only an enclosing invocation binds (must be an error, not the caller's value)
     cs += family_cases(rng, [("nested-frames", G.gen_nested_frames)], n // 8, faults=0.0)
+    # argument nesting 200-300 deep (not macro recursion: must evaluate), alone and below a long forwarding chain
+    cs += family_cases(rng, [("deep-args", G.gen_deep_args)], 6 if tier == "quick" else 40, faults=0.0)
     return cs
 
 
